@@ -4,8 +4,12 @@ concurrent state machine at the granularity of the lock acquisitions and of the 
 
 Mirrored Go code, pkg/segment/writer/segwriter.go (protocol only; the contents of a SegStore are a list of
 event ids):
-  * AddEntryToInMemBuf (323-335):   segstore := getOrCreateSegStore(streamid, …) ; segstore.AddEntry(…)
-        AddEntry (454-513) takes ONLY the store's own lock, appends the events and returns nil = acknowledged.
+  * AddEntryToInMemBuf:   for { segstore := getOrCreateSegStore(streamid, …) ; err := segstore.AddEntry(…) ;
+                                 err ≠ errSegStoreRemoved → return err }
+        AddEntry takes ONLY the store's own lock; a store marked `removed` answers errSegStoreRemoved without
+        appending (the caller starts over with getSegStore: Pc.retry); otherwise it appends the events and returns
+        nil = acknowledged.  (`Cfg.retry = true`.  Before the repair — `Cfg.realOld`, `retry = false` — there was
+        no mark and no loop: the call appended to whatever store it held.)
   * getOrCreateSegStore (692-699):  getSegStore(streamid) ; nil → createSegStore(…)
   * getSegStore (701-711):          allSegStoresLock.RLock ; allSegStores[streamid] ; RUnlock   (one step `get`)
   * createSegStore (713-740), in program order (`Cfg.real.prog`, tied by the go2lean fact C11.create.order):
@@ -23,11 +27,11 @@ event ids):
     timers and the shutdown flush iterate over `allSegStores` only): Label.flush — the store's events become
     persistent and the store takes the next suffix (resetSegStore).  A store that is not in the table is never
     reached by any of them.
-  * removeStaleSegments (588-618): Label.evict — a registered store without records (RecordCount = 0) is deleted
-    from the table under allSegStoresLock.Lock.  The idle horizon is not modelled: in the code as it is
-    `isSegstoreUnusedSinceTime(STALE_SEGMENT_DELETION_SECONDS)` passes 900 as a time.Duration, i.e. 900 ns — every
-    store without records qualifies (known finding create/lost-ack/evicted-before-append); the harness moves
-    lastUpdated into the past all the same, so that the replay survives a repair of the unit.
+  * removeStaleSegments: Label.evict — under allSegStoresLock.Lock AND the store's lock a registered store without
+    records (RecordCount = 0) that has been idle for STALE_SEGMENT_DELETION_SECONDS is marked `removed` and deleted
+    from the table (fact C11.evict.order).  The idle horizon is not modelled (the harness moves lastUpdated into
+    the past): the theorems hold for an eviction at ANY moment.  (Before the repairs the horizon was 900 ns instead
+    of 900 s — every store without records qualified — and the store was neither locked nor marked.)
 
 `get`, `lock`, `flush`, `evict` need allSegStoresLock and are NOT ENABLED while a call holds it (`St.lock`); a
 label whose step is not enabled leaves the state unchanged.  Every other step is always enabled.
@@ -44,23 +48,28 @@ deriving DecidableEq, Repr
 
 structure Cfg where
   prog : List CStep
+  retry : Bool   -- removeStaleSegments marks the store it deletes; AddEntry on a marked store makes the caller start over
 
-/-- createSegStore as it is -/
-def Cfg.real : Cfg := ⟨[.lock, .recheck, .sufRead, .sufWrite, .insert, .unlock]⟩
+/-- the code as it is -/
+def Cfg.real : Cfg := ⟨[.lock, .recheck, .sufRead, .sufWrite, .insert, .unlock], true⟩
+
+/-- the code before the repair of removeStaleSegments / AddEntryToInMemBuf: no mark, no retry -/
+def Cfg.realOld : Cfg := ⟨[.lock, .recheck, .sufRead, .sufWrite, .insert, .unlock], false⟩
 
 /-- the store is set up BEFORE the lock is taken and inserted without a re-check -/
-def Cfg.buildOutsideLock : Cfg := ⟨[.sufRead, .sufWrite, .lock, .insert, .unlock]⟩
+def Cfg.buildOutsideLock : Cfg := ⟨[.sufRead, .sufWrite, .lock, .insert, .unlock], true⟩
 
 /-- everything under the lock, but no re-check of the table -/
-def Cfg.noRecheck : Cfg := ⟨[.lock, .sufRead, .sufWrite, .insert, .unlock]⟩
+def Cfg.noRecheck : Cfg := ⟨[.lock, .sufRead, .sufWrite, .insert, .unlock], true⟩
 
 /-- the lock is released before the insert -/
-def Cfg.unlockBeforeInsert : Cfg := ⟨[.lock, .recheck, .sufRead, .sufWrite, .unlock, .insert]⟩
+def Cfg.unlockBeforeInsert : Cfg := ⟨[.lock, .recheck, .sufRead, .sufWrite, .unlock, .insert], true⟩
 
 inductive Pc where
   | idle                          -- the call has not started
   | create (todo : List CStep)    -- inside createSegStore, remaining statements
   | append                        -- getOrCreateSegStore returned `ret`; AddEntry is next
+  | retry                         -- AddEntry answered errSegStoreRemoved; getSegStore (same stream) is next
   | done
 deriving DecidableEq, Repr
 
@@ -75,6 +84,7 @@ structure Store where
   stream : Nat := 0
   suffix : Nat := 0             -- suffix of the open segment
   events : List Nat := []       -- events appended and not yet persistent
+  removed : Bool := false       -- removeStaleSegments has deleted it from the table
 
 structure St where
   table : Nat → Option Nat := fun _ => none   -- allSegStores: stream ↦ store
@@ -115,7 +125,7 @@ def createStep (s : St) (t : Nat) (a : CStep) (rest : List CStep) : St :=
     { s with thread := upd s.thread t { th with suf := s.sufFile th.stream, pc := afterCreate rest } }
   | .sufWrite =>
     { s with sufFile := upd s.sufFile th.stream (th.suf + 1),
-             store := upd s.store s.nstores { stream := th.stream, suffix := th.suf, events := [] },
+             store := upd s.store s.nstores { stream := th.stream, suffix := th.suf, events := [], removed := false },
              nstores := s.nstores + 1,
              handed := s.handed ++ [(th.stream, th.suf)],
              thread := upd s.thread t { th with mine := some s.nstores, pc := afterCreate rest } }
@@ -128,26 +138,35 @@ def createStep (s : St) (t : Nat) (a : CStep) (rest : List CStep) : St :=
     { s with lock := if s.lock = some t then none else s.lock,
              thread := upd s.thread t { th with pc := afterCreate rest } }
 
+/-- getSegStore of call `t` on stream `i` (first step of the call, and first step after errSegStoreRemoved) -/
+def getStep (cfg : Cfg) (s : St) (t i : Nat) : St :=
+  let th := s.thread t
+  match s.lock with
+  | some _ => s                                                   -- RLock waits
+  | none =>
+    match s.table i with
+    | some r => { s with started := s.started ++ [t],
+                         thread := upd s.thread t { th with stream := i, ret := some r, pc := .append } }
+    | none => { s with started := s.started ++ [t],
+                       thread := upd s.thread t { th with stream := i, pc := afterCreate cfg.prog } }
+
 /-- label `call t i`: the next step of call `t`; its first step starts it on stream `i` with getSegStore -/
 def callStep (cfg : Cfg) (s : St) (t i : Nat) : St :=
   let th := s.thread t
   match th.pc with
-  | .idle =>
-    match s.lock with
-    | some _ => s                                                   -- RLock waits
-    | none =>
-      match s.table i with
-      | some r => { s with started := s.started ++ [t],
-                           thread := upd s.thread t { th with stream := i, ret := some r, pc := .append } }
-      | none => { s with started := s.started ++ [t],
-                         thread := upd s.thread t { th with stream := i, pc := afterCreate cfg.prog } }
+  | .idle => getStep cfg s t i
+  | .retry => getStep cfg s t th.stream
   | .create [] => { s with thread := upd s.thread t { th with pc := .append } }
   | .create (a :: rest) => createStep s t a rest
   | .append =>
     match th.ret with
-    | some r => { s with store := upd s.store r { s.store r with events := (s.store r).events ++ [t] },
-                         acked := s.acked ++ [(t, r)],
-                         thread := upd s.thread t { th with pc := .done } }
+    | some r =>
+      if cfg.retry = true ∧ (s.store r).removed = true then
+        { s with thread := upd s.thread t { th with pc := .retry } }   -- errSegStoreRemoved: nothing appended
+      else
+        { s with store := upd s.store r { s.store r with events := (s.store r).events ++ [t] },
+                 acked := s.acked ++ [(t, r)],
+                 thread := upd s.thread t { th with pc := .done } }
     | none => { s with thread := upd s.thread t { th with pc := .done } }  -- createSegStore returned an error
   | .done => s
 
@@ -165,14 +184,19 @@ def flushStep (s : St) (i : Nat) : St :=
                sufFile := upd s.sufFile i (s.sufFile i + 1),
                handed := s.handed ++ [(i, s.sufFile i)] }
 
-/-- label `evict i`: removeStaleSegments deletes the registered store of stream `i` if it holds no records -/
-def evictStep (s : St) (i : Nat) : St :=
+/-- label `evict i`: removeStaleSegments deletes the registered store of stream `i` if it holds no records (and,
+`cfg.retry`, marks it under the store's lock) -/
+def evictStep (cfg : Cfg) (s : St) (i : Nat) : St :=
   match s.lock with
   | some _ => s
   | none =>
     match s.table i with
     | none => s
-    | some r => if (s.store r).events = [] then { s with table := upd s.table i none } else s
+    | some r =>
+      if (s.store r).events = [] then
+        { s with table := upd s.table i none,
+                 store := upd s.store r { s.store r with removed := cfg.retry } }
+      else s
 
 inductive Label where
   | call (t i : Nat)
@@ -183,7 +207,7 @@ deriving DecidableEq, Repr
 def step (cfg : Cfg) (s : St) : Label → St
   | .call t i => callStep cfg s t i
   | .flush i => flushStep s i
-  | .evict i => evictStep s i
+  | .evict i => evictStep cfg s i
 
 def run (cfg : Cfg) (s : St) (l : List Label) : St := l.foldl (step cfg) s
 
@@ -193,19 +217,6 @@ def Lost (s : St) (e r : Nat) : Prop :=
   (e, r) ∈ s.acked ∧ e ∉ s.persisted ∧ s.table (s.store r).stream ≠ some r
 
 instance (s : St) (e r : Nat) : Decidable (Lost s e r) := by unfold Lost; infer_instance
-
-/-- a call that already holds a pointer to the registered store of stream `i` and has not appended yet -/
-def holdsRegistered (s : St) (i t : Nat) : Bool :=
-  (s.thread t).pc == .append && (s.table i).isSome && (s.thread t).ret == s.table i
-
-/-- schedule guard: no `evict i` is taken while a call holds a pointer to the registered store of `i` that it
-has not appended to yet -/
-def evictSafe (cfg : Cfg) (s : St) : List Label → Bool
-  | [] => true
-  | l :: ls =>
-    (match l with
-     | .evict i => s.started.all (fun t => !holdsRegistered s i t)
-     | _ => true) && evictSafe cfg (step cfg s l) ls
 
 /-- the schedule contains no eviction at all -/
 def evictFree : List Label → Bool
